@@ -26,6 +26,7 @@ def check(repo, rep, tier):
     rep.run(rx.rule_lookup_confined, em, rep, 'C08.Q10')
     rep.run(rx.rule_lookups_agree, em, rep, 'C08.Q11')
     rep.run(rq.rule_values_never_inspected, em, rep, 'C08.Q12')
+    rep.run(rx.rule_load_takes_all, em, rep, 'C08.Q13')
     from .. import rules_compile as rc
     from .. import rules_clause as rcl
     rep.run(rcl.rule_calls_late_bound, rc.CompilerModel(repo), rep, 'C08.Q7')
